@@ -2,7 +2,7 @@ import DoitModel.Proofs.C11JustStep
 import DoitModel.Proofs.C11Par
 import DoitModel.Proofs.C11Lazy
 import DoitModel.Proofs.C19Walk
-import DoitModel.Proofs.C05Shape
+import DoitModel.Proofs.C05Inv
 /-! # C11, laziness monitor on the model: the trace of a state, the facts about reports that the proof uses -/
 namespace DoitModel.Run
 open DoitModel.Report
@@ -28,12 +28,13 @@ structure Ctx (inp : RunInput) (s : Sys) : Prop where
   h19 : Inv19 inp s
   lz : Lazy s
   tb : TdB inp s
+  hF : InvF inp s
 
 theorem reach_ctx {inp : RunInput} {s : Sys} (hser : inp.runner = .serial) (h : Reach inp s) : Ctx inp s :=
-  ⟨reach_inv2 h, reach_inv3 h, reach_invG h, reach_inv19 h, reach_lazy h, reach_tdB hser h⟩
+  ⟨reach_inv2 h, reach_inv3 h, reach_invG h, reach_inv19 h, reach_lazy h, reach_tdB hser h, reach_invF h⟩
 
 theorem preach_ctx {inp : RunInput} {s : Sys} (hpar : inp.runner ≠ .serial) (h : PReach inp s) : Ctx inp s :=
-  ⟨(preach_inv h).1, (preach_inv h).2, preach_invG h, preach_inv19 h, preach_lazy h, preach_tdB hpar h⟩
+  ⟨(preach_inv h).1, (preach_inv h).2, preach_invG h, preach_inv19 h, preach_lazy h, preach_tdB hpar h, preach_invF h⟩
 
 theorem mem_startOrder {inp : RunInput} {d : Name} {evs : List Ev} (h : d ∈ startOrder inp evs) :
     ∃ w, Ev.start d w ∈ evs := by
@@ -121,6 +122,80 @@ theorem Ctx.run_noTerminal {inp : RunInput} {s : Sys} (c : Ctx inp s) {a : Name}
     obtain ⟨e, he, hp⟩ := List.any_eq_true.mp hx
     have : 0 < s.events.countP (Ev.isTerminalOf a) := List.countP_pos_iff.mpr ⟨e, (mem_trace.mp he).1, hp⟩
     unfold cTerm at h0; omega
+
+/-- the deliveries known in state `s`: an executed / up-to-date task delivers its values, a task that failed after its
+    actions were started delivers what it returned before failing -/
+def Ds (inp : RunInput) (s : Sys) : Name → CalcRes → Prop := fun p r =>
+  ((stOf s p).good = true ∧ r = inp.calcRes p) ∨ (stOf s p = .fail ∧ started s p = true ∧ r = inp.calcResFail p)
+
+theorem knowsD_ds (inp : RunInput) (s : Sys) : KnowsD inp (Ds inp s) s :=
+  ⟨fun _ h => Or.inl ⟨h, rfl⟩, fun _ h1 h2 => Or.inr ⟨h1, h2, rfl⟩⟩
+
+theorem finishedIn_status {inp : RunInput} {s : Sys} (c : Ctx inp s) {p : Name}
+    (h : finishedIn (trace inp s) p = true) : (stOf s p).good = true := by
+  unfold finishedIn at h
+  obtain ⟨e, he, hp⟩ := List.any_eq_true.mp h
+  have he' := (mem_trace.mp he).1
+  cases e <;> simp [Ev.isFinishOf] at hp
+  · subst hp; rw [c.hF.ut _ he']; rfl
+  · subst hp; rw [(c.hF.ok _ he').1]; rfl
+
+theorem failedRunIn_status {inp : RunInput} {s : Sys} (c : Ctx inp s) {p : Name}
+    (h : failedRunIn (trace inp s) p = true) : stOf s p = .fail := by
+  unfold failedRunIn at h
+  simp only [Bool.and_eq_true] at h
+  obtain ⟨e, he, hp⟩ := List.any_eq_true.mp h.2
+  cases e <;> simp [Ev.isFailRepOf] at hp
+  subst hp
+  exact c.hF.fl _ _ (mem_trace.mp he).1
+
+/-- what is known to be delivered in `s` is what the monitor reads off the trace (`resAt`) -/
+theorem Ctx.ds_resAt {inp : RunInput} {n : Nat} (hb : BoundedP inp n) {s : Sys} (c : Ctx inp s) {p : Name}
+    {r : CalcRes} (hp : p < n) (h : Ds inp s p r) :
+    (∀ x ∈ r.calcs, x ∈ (resAt inp (trace inp s) p).calcs) ∧ (∀ x ∈ r.tasks, x ∈ (resAt inp (trace inp s) p).tasks) ∧
+    (∀ x ∈ r.files, x ∈ (resAt inp (trace inp s) p).files) := by
+  rcases h with ⟨hg, rfl⟩ | ⟨hf, hs, rfl⟩
+  · have := c.good_finished hg
+    unfold resAt; rw [if_pos this]; exact ⟨fun _ h => h, fun _ h => h, fun _ h => h⟩
+  · by_cases hna : inp.noAct p = true
+    · obtain ⟨a, b, d⟩ := hb.na p hp hna
+      rw [a, b, d]
+      exact ⟨fun _ h => (by cases h), fun _ h => (by cases h), fun _ h => (by cases h)⟩
+    · have hnf : finishedIn (trace inp s) p = false := by
+        cases hx : finishedIn (trace inp s) p with
+        | false => rfl
+        | true => have := finishedIn_status c hx; rw [hf] at this; cases this
+      have hfr : failedRunIn (trace inp s) p = true := by
+        unfold failedRunIn
+        simp only [Bool.and_eq_true]
+        constructor
+        · unfold started at hs
+          obtain ⟨e, he, hpe⟩ := List.any_eq_true.mp hs
+          cases e <;> simp at hpe
+          rename_i m w
+          subst hpe
+          exact List.any_eq_true.mpr ⟨_, mem_trace.mpr ⟨he, by simpa [hidden] using hna⟩, by simp [Ev.isStartOf]⟩
+        · obtain ⟨k, hk⟩ := c.hF.fe p hf
+          exact List.any_eq_true.mpr ⟨_, mem_trace.mpr ⟨hk, rfl⟩, by simp [Ev.isFailRepOf]⟩
+      unfold resAt
+      rw [hnf, hfr]
+      exact ⟨fun _ h => h, fun _ h => h, fun _ h => h⟩
+
+/-- the deliveries read off the trace only grow along a transition -/
+theorem resLe_step {inp : RunInput} {s s' : Sys} (c' : Ctx inp s') {new : List Ev} (hev : s'.events = new ++ s.events) :
+    ResLe inp (trace inp s) (trace inp s ++ obsOf inp new) := by
+  apply resLe_append
+  intro p hp
+  rw [← trace_append hev]
+  have hp' : failedRunIn (trace inp s') p = true := by
+    rw [trace_append hev]
+    unfold failedRunIn at hp ⊢
+    simp only [Bool.and_eq_true] at hp ⊢
+    exact ⟨by rw [List.any_append, hp.1]; rfl, by rw [List.any_append, hp.2]; rfl⟩
+  have hst := failedRunIn_status c' hp'
+  cases hx : finishedIn (trace inp s') p with
+  | false => rfl
+  | true => have := finishedIn_status c' hx; rw [hst] at this; cases this
 
 /-- the systems are started according to `inp.runner`: the serial system of a parallel input never moves … -/
 theorem reach_mismatch {inp : RunInput} {s : Sys} (hne : inp.runner ≠ .serial) (h : Reach inp s) : s = init inp := by
